@@ -25,6 +25,8 @@ var c07Names = map[string]string{"#a": "a"}
 var c07Values = map[string]val.V{
 	":s": val.S("str"), ":n": val.N("5"), ":l": val.L(val.S("e1"), val.N("2")), ":m": val.M("k", val.S("v")),
 	":ss": val.SS("x", "new"), ":ssall": val.SS("x", "y"), ":ns": val.NS("1", "7"), ":bs": val.BS([]byte{1}, []byte{7}), ":b": val.Bool(true), ":null": val.Null(),
+	// values whose printed form equals that of a stored value of another type or shape
+	":s10": val.S("10"), ":ssxy": val.SS("x y"),
 }
 
 func c07Item() val.Item {
@@ -53,12 +55,12 @@ func c07Actions() []c07act {
 		}
 		return t
 	}
-	targets := []string{"a", "b", "m.x", "m.z", "l[0]", "l[1]", "l[9]", "nw", "#a", "nope.x", "b.x", "b[0]", "u.k[1].n"}
+	targets := []string{"a", "b", "m.x", "m.z", "l[0]", "l[1]", "l[9]", "nw", "#a", "nope.x", "b.x", "b[0]", "u.k[1].n", "ss"}
 	rhss := []struct {
 		r    rx.Rhs
 		kind string
 	}{
-		{rx.RV(":s"), "value"}, {rx.RV(":n"), "value"}, {rx.RV(":l"), "value"}, {rx.RV(":m"), "value"}, {rx.RV(":null"), "value"},
+		{rx.RV(":s"), "value"}, {rx.RV(":n"), "value"}, {rx.RV(":l"), "value"}, {rx.RV(":m"), "value"}, {rx.RV(":null"), "value"}, {rx.RV(":s10"), "value"}, {rx.RV(":ssxy"), "value"},
 		{rx.RP("a"), "path"}, {rx.RP("b"), "path"}, {rx.RP("m.x"), "path"}, {rx.RP("l[0]"), "path"}, {rx.RP("nope"), "path-missing"}, {rx.RP("u"), "path"},
 		{rx.RPlus(rx.RP("a"), rx.RV(":n")), "plus"}, {rx.RPlus(rx.RV(":n"), rx.RP("a")), "plus"}, {rx.RMinus(rx.RP("a"), rx.RV(":n")), "minus"}, {rx.RMinus(rx.RV(":n"), rx.RP("m.x")), "minus"},
 		{rx.RPlus(rx.RP("b"), rx.RV(":n")), "plus-mistyped"}, {rx.RPlus(rx.RP("nope"), rx.RV(":n")), "plus-missing"}, {rx.RPlus(rx.RP("a"), rx.RV(":s")), "plus-mistyped"},
@@ -375,46 +377,4 @@ func C07(run *ev.Run, tier string) map[string]interface{} {
 }
 
 // NullifyEmpty is the defect model "empty B, L, M and sets come back as NULL" (SDK v2 mapper).
-func NullifyEmpty(it val.Item) val.Item {
-	o := val.Item{}
-	for k, v := range it {
-		o[k] = nullifyEmptyV(v)
-	}
-	return o
-}
-
-func nullifyEmptyV(v val.V) val.V {
-	switch v.T {
-	case "B":
-		if len(v.B) == 0 {
-			return val.Null()
-		}
-	case "SS", "NS":
-		if len(v.SS) == 0 {
-			return val.Null()
-		}
-	case "BS":
-		if len(v.BS) == 0 {
-			return val.Null()
-		}
-	case "L":
-		if len(v.L) == 0 {
-			return val.Null()
-		}
-		o := val.V{T: "L", L: make([]val.V, len(v.L))}
-		for i, x := range v.L {
-			o.L[i] = nullifyEmptyV(x)
-		}
-		return o
-	case "M":
-		if len(v.M) == 0 {
-			return val.Null()
-		}
-		o := val.V{T: "M", M: map[string]val.V{}}
-		for k, x := range v.M {
-			o.M[k] = nullifyEmptyV(x)
-		}
-		return o
-	}
-	return v
-}
+func NullifyEmpty(it val.Item) val.Item { return val.NullifyEmpty(it) }
